@@ -18,7 +18,7 @@ from mc.models import zo_model as M
 
 ID = "C01"
 LEVEL = "model_checking"
-FIELDS = ("kind", "priority", "body", "line", "zid", "create", "modify")
+FIELDS = ("kind", "priority", "body", "line", "zid", "create", "modify", "section", "block")
 
 _PLAIN_POOLS = [("foo", "Foo_bar"), ("alpha", "Beta_2"), ("zeta", "Note_x")]
 _ZID_POOLS = [("240311#0A", "240312#Zz9"), ("231230#k7", "240102#0a0"), ("250607#R2", "250608#ABC")]
@@ -39,6 +39,7 @@ def _alpha(seed):
     return plain, zids, words
 
 
+M_SUFFIX = [a + b for a in "0123456789ABCDEFGH" for b in "0123456789"]
 KP = [("-", None)] + [(k, p) for k in M.TODO_KINDS for p in (None, "P0", "P9")]
 IDENTS = ["none", "zid", "mzid", "long", "zid-late-year", "mzid-late-year"]
 TAILS = ["single", "cont", "bullet", "bullet_lookalike"]
@@ -97,6 +98,7 @@ def _reduced_items(seed):
 
 
 LAYOUTS = ["same_block", "two_blocks", "comment_between", "second_under_h1", "deep"]
+LONG_LAYOUT = "long_page"
 
 
 def _page_multi(seed, layout, specs):
@@ -106,8 +108,18 @@ def _page_multi(seed, layout, specs):
     for n, itm in enumerate(items):
         if itm.ident[0] == "zid":
             z = itm.ident[1]
-            itm.ident = ("zid", z[:-1] + "ABC"[n % 3])
+            itm.ident = ("zid", z[:-1] + "ABC"[n % 3] if len(items) <= 3 else z[:7] + M_SUFFIX[n % len(M_SUFFIX)])
     page = M.APage(title=[M.W("page"), M.W("title")])
+    if layout == LONG_LAYOUT:
+        # many items: line numbers with two and three digits, several blocks and sections
+        third = max(1, len(items) // 3)
+        page.top_blocks = [items[:third]]
+        page.sections = [M.ASection(1, [M.W("Mid")], [items[third:2 * third][:6], items[third:2 * third][6:]] if len(items[third:2 * third]) > 6 else [items[third:2 * third]]),
+                         M.ASection(2, [M.W("Low"), M.W("er")], [items[2 * third:]])]
+        page.sections = [s_ for s_ in page.sections if any(s_.blocks)]
+        for s_ in page.sections:
+            s_.blocks = [b for b in s_.blocks if b]
+        return page
     if layout == "same_block":
         page.top_blocks = [items]
     elif layout == "two_blocks":
@@ -221,6 +233,11 @@ def _cases(ctx):
         if not ctx.quick:
             for idxs in it.product(range(24), repeat=2):
                 cases.append(["multi", layout, list(idxs)])
+    # long pages: every rotation of the 24-item alphabet, repeated 1x, 2x and 5x
+    for rot in range(24):
+        for rep in ((1, 2) if ctx.quick else (1, 2, 5)):
+            idxs = [(rot + k) % 24 for k in range(24)] * rep
+            cases.append(["multi", LONG_LAYOUT, idxs])
     return cases, n_single
 
 
@@ -245,7 +262,8 @@ def run(ctx: F.Ctx):
             "that are prefixes by the format's own rule; multi-item pages: all ordered "
             "pairs (quick) / pairs and triples (thorough) of a 24-item reduced alphabet in 5 "
             "layouts (same block, two blocks, in-block comment between, second under a new H1, "
-            "under H1>H2>H3>H4). Each page is a trace of the line-event machine; model states = "
+            "under H1>H2>H3>H4), plus long pages (24, 48, 120 items over several blocks and sections, "
+            "line numbers up to three digits). Section path and block index of every note are compared too. Each page is a trace of the line-event machine; model states = "
             "(section stack, previous item's prefix shape, event). Non-trivial = multi-item page "
             "or a body containing a prefix look-alike."
         ),
